@@ -253,7 +253,9 @@ def sum_over(fn, ctx, container):
     if not cands:
         # an assignment where an accumulation is expected:  for (...) acc = term(e);  return acc;
         for j, n in fn.walk(fn.body):
-            if n["k"] == "bin" and n["op"] == "=" and fn.nodes[n["l"]]["k"] == "ref" and fn.nodes[n["l"]].get("dk") == "local":
+            lhs_ = n["l"] if (n["k"] == "bin" and n["op"] == "=") else (n["args"][0] if (n["k"] == "call" and n.get("ck") == "op" and n.get("op") == "=" and len(n["args"]) == 2) else None)
+            if lhs_ is not None and fn.nodes[lhs_]["k"] == "ref" and fn.nodes[lhs_].get("dk") == "local":
+                n = dict(n, l=lhs_)
                 for L in enclosing_loops(fn, j):
                     if fn.nodes[L]["k"] not in ("for", "forrange"):
                         continue
